@@ -253,6 +253,20 @@ class StubSftpServer:
         fs = self.fs
         pol = self.policy
 
+        if t == EXTENDED:
+            name = r.string()
+
+            if name == b'statvfs@openssh.com':
+                # f_bsize ... f_namemax: f_files (6th field) tells the
+                # caller which path was asked about
+                path = fs.norm(r.string())
+                vals = [4096, 4096, 1000, 500, 400, len(path) * 1000 + 7,
+                        50, 40, 99, 0, 255]
+                return bytes([EXTENDED_REPLY]) + u32(rid) + \
+                    b''.join(u64(v) for v in vals)
+
+            return status(rid, FX_OP_UNSUPPORTED, b'unsupported')
+
         if t == OPEN and not pol.get('hostile_tree'):
             path = fs.norm(r.string())
             pflags = r.u32()
